@@ -88,6 +88,7 @@ fn run(r: &mut Run) -> Result<(), MachineryError> {
     reps::char_pair_space(r, "C07/representative-pairs", M_C07, vec![Alg::FirstFit])?;
     escape_scan_space(r, "C07/escape-grammar-scan", M_C07, vec![Alg::FirstFit])?;
     word_seq_space(r, "C07/word-sequences", M_C07, vec![Alg::FirstFit])?;
+    word_seq_long_space(r, "C07/word-sequences-medium", M_C07, vec![Alg::FirstFit])?;
     scale::frag_scale(r, "C07/long-periodic", "C07")?;
     scale::text_scale(r, "C07/long-paragraphs", "C07")?;
     words_through_wrap_algorithm(r)
